@@ -8,6 +8,7 @@
 
 #include <gmp.h>
 #include <openssl/bn.h>
+#include <openssl/crypto.h>
 
 using namespace pbt;
 
@@ -320,6 +321,25 @@ static rc::Gen<Case> gen_modexp(int) {
   });
 }
 
+// OpenSSL's allocator (CRYPTO_set_mem_functions, installed first thing in main): the k-th allocation made while armed fails
+static long g_ossl_calls = 0, g_ossl_fail_at = -1, g_ossl_failed = 0;
+static bool g_ossl_armed = false;
+static void *ossl_malloc(size_t n, const char *, int) {
+  if (g_ossl_armed && ++g_ossl_calls == g_ossl_fail_at) {
+    g_ossl_failed++;
+    return nullptr;
+  }
+  return malloc(n);
+}
+static void *ossl_realloc(void *p, size_t n, const char *, int) {
+  if (g_ossl_armed && ++g_ossl_calls == g_ossl_fail_at) {
+    g_ossl_failed++;
+    return nullptr;
+  }
+  return realloc(p, n);
+}
+static void ossl_free(void *p, const char *, int) { free(p); }
+
 struct Lib {
   int rc;
   std::string out;
@@ -333,7 +353,9 @@ static Lib lib_pub(const std::string &x, const std::vector<std::string> &script,
   uint8_t *pub = (uint8_t *)malloc(256);
   memset(pub, 0xa5, 256);
   Lib l;
+  g_ossl_armed = true;
   l.rc = shim_dh_generate_pub(pub, priv);
+  g_ossl_armed = false;
   l.out.assign((char *)pub, 256);
   l.calls = shim_ent_calls();
   l.failed = shim_ent_failed();
@@ -341,22 +363,25 @@ static Lib lib_pub(const std::string &x, const std::vector<std::string> &script,
   free(pub);
   return l;
 }
-static Lib lib_key(const std::string &y, const std::string &x, const std::vector<std::string> &script, int failat = -1) {
+static Lib lib_key(const std::string &y, const std::string &x, const std::vector<std::string> &script, int failat = -1, bool inplace = false) {
   shim_ent_reset();
   for (auto &s : script) shim_ent_push((const uint8_t *)s.data());
   shim_ent_fail_at(failat);
   uint8_t *priv = heap(x);
   uint8_t *peer = heap(y);
-  uint8_t *key = (uint8_t *)malloc(256);
-  memset(key, 0xa5, 256);
+  // in place: the shared key overwrites the peer's public value (both are 256 bytes)
+  uint8_t *key = inplace ? peer : (uint8_t *)malloc(256);
+  if (!inplace) memset(key, 0xa5, 256);
   Lib l;
+  g_ossl_armed = true;
   l.rc = shim_dh_compute(peer, priv, key);
+  g_ossl_armed = false;
   l.out.assign((char *)key, 256);
   l.calls = shim_ent_calls();
   l.failed = shim_ent_failed();
   free(priv);
   free(peer);
-  free(key);
+  if (!inplace) free(key);
   return l;
 }
 
@@ -416,7 +441,8 @@ static Outcome run_modexp(const Case &c) {
   for (int i = 0; i < 2; i++) {
     blind_classes(o, x, rs[i]);
     pub[i] = lib_pub(x, {rs[i]});
-    key[i] = lib_key(y, x, {rs[i]});
+    key[i] = lib_key(y, x, {rs[i]}, -1, i == 1);  // the second computation is done in place
+    if (i == 1) o.cls("compute-in-place");
     if (pub[i].rc != 0 && pub[i].failed == 0) {
       o.fail("pub-rc", describe("crypto_dh_generate_pub failed although the entropy source succeeded:", x, "", rs[i], pub[i], want_pub));
       return o;
@@ -433,7 +459,7 @@ static Outcome run_modexp(const Case &c) {
     return o;
   }
   if (key[0].out != key[1].out) {
-    o.fail("blinding-dependence", "crypto_dh_compute priv=" + short_hex(x) + " peer=" + short_hex(y) + " gives " + short_hex(key[0].out) +
+    o.fail("blinding-dependence", "crypto_dh_compute (first call: separate buffers; second call: key written over the peer value) priv=" + short_hex(x) + " peer=" + short_hex(y) + " gives " + short_hex(key[0].out) +
                                       " under blinding " + short_hex(rs[0]) + " but " + short_hex(key[1].out) + " under blinding " +
                                       short_hex(rs[1]) + "; expected " + short_hex(want_key) + " for both");
     return o;
@@ -447,6 +473,65 @@ static Outcome run_modexp(const Case &c) {
     return o;
   }
   return o;
+}
+
+// sub "osslfault": ops x y r -- every allocation OpenSSL makes during generate_pub / compute fails in turn: the call fails or is exact
+static Outcome run_osslfault(const Case &c) {
+  Outcome o;
+  std::string x, y, r;
+  for (auto &op : c) {
+    if (op.k == "x") x = op.b;
+    else if (op.k == "y") y = op.b;
+    else if (op.k == "r") r = op.b;
+  }
+  x = fit(x, 32);
+  y = fit(y, 256);
+  r = fit(r, 32);
+  std::string want_pub = oracle_pow(two_be(), x), want_key = oracle_pow(y, x);
+  for (int which = 0; which < 2; which++) {
+    g_ossl_calls = 0;
+    g_ossl_fail_at = -1;
+    Lib base = which ? lib_key(y, x, {r}) : lib_pub(x, {r});
+    long N = g_ossl_calls;
+    if (base.rc != 0 || base.out != (which ? want_key : want_pub)) {
+      o.fail("osslfault-base", std::string(which ? "crypto_dh_compute" : "crypto_dh_generate_pub") + " is wrong without any fault");
+      return o;
+    }
+    o.counters[which ? "ossl_allocs_compute" : "ossl_allocs_generate_pub"] = (uint64_t)N;
+    for (long k = 1; k <= N; k++) {
+      g_ossl_calls = 0;
+      g_ossl_failed = 0;
+      g_ossl_fail_at = k;
+      Lib l = which ? lib_key(y, x, {r}) : lib_pub(x, {r});
+      g_ossl_fail_at = -1;
+      o.weight++;
+      if (g_ossl_failed) o.nontrivial = true;
+      if (l.rc == 0 && l.out != (which ? want_key : want_pub)) {
+        char m[300];
+        snprintf(m, sizeof m, "%s returned success with a wrong value when OpenSSL allocation #%ld of %ld failed (priv=%s)", which ? "crypto_dh_compute" : "crypto_dh_generate_pub", k, N,
+                 short_hex(x).c_str());
+        o.fail(which ? "key-value-under-alloc-failure" : "pub-value-under-alloc-failure", m);
+        return o;
+      }
+      if (l.rc != 0 && l.rc != -1) {
+        o.fail("osslfault-rc", "return value " + std::to_string(l.rc) + " under allocation failure");
+        return o;
+      }
+      o.cls(l.rc == 0 ? "alloc-failure-survived-exact" : "alloc-failure-reported");
+    }
+  }
+  priv_classes(o, x);
+  return o;
+}
+static rc::Gen<Case> gen_osslfault(int) {
+  return rc::gen::exec([]() {
+    std::string x = *gen_s32();
+    Case c;
+    c.push_back(Op("x", {}, x));
+    c.push_back(Op("y", {}, *gen_peer(x)));
+    c.push_back(Op("r", {}, *gen_blind(x)));
+    return c;
+  });
 }
 
 // sub "agree": ops x x r r r r
@@ -655,6 +740,7 @@ static Outcome run_generate(const Case &c) {
 }
 
 int main(int argc, char **argv) {
+  CRYPTO_set_mem_functions(ossl_malloc, ossl_realloc, ossl_free);  // before OpenSSL allocates anything
   derive_group();
   std::vector<Sub> subs;
   subs.push_back({"modexp",
@@ -675,5 +761,10 @@ int main(int argc, char **argv) {
                   "crypto_dh_generate / generate_pub / compute with the entropy source failing at call 0, 1, 2 or never: delivered failure => -1; "
                   "otherwise 0, priv == the source's first answer and pub == 2^(2^258+priv) mod p. Non-trivial: a delivered failure, or a full crypto_dh_generate",
                   gen_generate, run_generate});
+  subs.push_back({"osslfault",
+                  "priv / peer / blinding as in modexp; crypto_dh_generate_pub and crypto_dh_compute are run once to count the allocations OpenSSL makes (N about 55..70), "
+                  "then once per k = 1..N with the k-th allocation failing (CRYPTO_set_mem_functions): the call returns -1, or 0 with the exact GMP value. "
+                  "evaluations = faulted runs. Non-trivial: the failing allocation was reached",
+                  gen_osslfault, run_osslfault});
   return pbt_main(argc, argv, subs);
 }
